@@ -39,10 +39,13 @@ def read_side(facts):
             entries.append(f)
     if len(entries) < 40:
         raise AnalysisBroken("R03", "only %d read-side entry points found" % len(entries))
-    reach = {k: f for k, f in cg.reachable(entries).items() if f.get("file", "").startswith(facts.repo + "/src/")}
     mains = [f for f in facts.functions.values() if f["qn"] == "main" and "/src/bin/" in f.get("file", "")]
     if len(mains) < 5:
         raise AnalysisBroken("R03", "only %d tool mains found" % len(mains))
+    # the tools are entry points too: cdns-merge hands what it read to the *write* side (exporter, block, encoder,
+    # Timestamp::get_time_offset), so that code also runs on values taken from untrusted bytes
+    reach = {k: f for k, f in cg.reachable(entries + mains).items()
+             if f.get("file", "").startswith(facts.repo + "/src/") and f["qn"] != "main"}
     return reach, mains, cg
 
 
